@@ -21,7 +21,7 @@ from pathlib import Path
 
 ROOT = Path("/verif")
 COQ_SRC = ROOT / "coq"
-BUILD = ROOT / "build"
+BUILD = Path(os.environ.get("VERIF_BUILD", str(ROOT / "build")))
 COQ_BUILD = BUILD / "coq"
 REPO = Path(os.environ.get("VERIF_REPO", "/repo"))
 EVIDENCE = ROOT / "evidence"
